@@ -249,4 +249,208 @@ theorem walkList_render (fuel : Nat) : ∀ (l : List Atom), wfList l → (render
 theorem walk_render (l : List Atom) (hl : wfList l) : walk (renderList l) = some l :=
   walkList_render _ l hl (by omega)
 
+/-! ### C. `__update_parents` on the tree -/
+
+/-- extent of the top-level list when the hole holds `n` bytes -/
+def lenIn : List Frame → Hole → Nat → Nat
+  | [], h, n => sizeList h.pre + n + sizeList h.post
+  | fr :: r, h, n => sizeList fr.pre + (hdrLen fr.wide + fr.skip.length + lenIn r h n) + sizeList fr.post
+
+/-- the bytes of the top-level list with `X` in the hole and every ancestor size field written as
+if the hole held `n` bytes (`n = X.length`: the rendering; `n ≠ X.length`: stale size fields) -/
+def mixed : List Frame → Hole → Nat → Bytes → Bytes
+  | [], h, _, X => renderList h.pre ++ X ++ renderList h.post
+  | fr :: r, h, n, X =>
+    renderList fr.pre ++
+      (header fr.name fr.wide (hdrLen fr.wide + fr.skip.length + lenIn r h n) ++ fr.skip ++ mixed r h n X) ++
+      renderList fr.post
+
+/-- the frames and the hole are made of well-formed atoms, and every ancestor size fits its field
+when the hole holds `n` bytes -/
+def FramesOk : List Frame → Hole → Nat → Prop
+  | [], h, _ => wfList h.pre ∧ wfList h.post
+  | fr :: r, h, n =>
+    fr.name.length = 4 ∧ wfList fr.pre ∧ wfList fr.post ∧
+      hdrLen fr.wide + fr.skip.length + lenIn r h n < (if fr.wide then 2 ^ 64 else 2 ^ 32) ∧ FramesOk r h n
+
+theorem sizeList_fill (frames : List Frame) (h : Hole) (mid : List Atom) :
+    sizeList (fill frames h mid) = lenIn frames h (sizeList mid) := by
+  induction frames with
+  | nil => simp [fill, lenIn, sizeList_append]; omega
+  | cons fr r ih => simp [fill, lenIn, sizeList_append, sizeList, Atom.size, ih]; omega
+
+theorem renderList_fill (frames : List Frame) (h : Hole) (mid : List Atom) :
+    renderList (fill frames h mid) = mixed frames h (sizeList mid) (renderList mid) := by
+  induction frames with
+  | nil => simp [fill, mixed, renderList_append]
+  | cons fr r ih =>
+    simp [fill, mixed, renderList_append, renderList, Atom.render, ih, sizeList_fill]
+
+/-- a well-formed filled tree has well-formed frames -/
+theorem framesOk_of_wf (frames : List Frame) (h : Hole) (mid : List Atom) (hw : wfList (fill frames h mid)) :
+    FramesOk frames h (sizeList mid) ∧ wfList mid := by
+  induction frames with
+  | nil =>
+    simp only [fill, wfList_append] at hw
+    exact ⟨⟨hw.1.1, hw.2⟩, hw.1.2⟩
+  | cons fr r ih =>
+    simp only [fill, wfList_append, wfList, Atom.wf, and_true] at hw
+    obtain ⟨⟨hpre, ⟨hn, _, _, hfit, hin⟩⟩, hpost⟩ := hw
+    obtain ⟨ihf, ihm⟩ := ih hin
+    refine ⟨⟨hn, hpre, hpost, ?_, ihf⟩, ihm⟩
+    rw [← sizeList_fill]; exact hfit
+
+theorem length_mixed (frames : List Frame) (h : Hole) (n : Nat) (X : Bytes) (hok : FramesOk frames h n) :
+    (mixed frames h n X).length = lenIn frames h X.length := by
+  induction frames with
+  | nil =>
+    obtain ⟨h1, h2⟩ := hok
+    simp [mixed, lenIn, length_renderList _ h1, length_renderList _ h2]; omega
+  | cons fr r ih =>
+    obtain ⟨hn, h1, h2, _, hr⟩ := hok
+    simp [mixed, lenIn, length_renderList _ h1, length_renderList _ h2, length_header _ _ _ hn, ih hr]
+    omega
+
+theorem splice_mid (A X Z X' : Bytes) : splice (A ++ X ++ Z) A.length X.length X' = A ++ X' ++ Z := by
+  unfold splice
+  rw [List.append_assoc A X Z, List.take_left' rfl]
+  congr 1
+  rw [← List.append_assoc, show A.length + X.length = (A ++ X).length by simp, List.drop_left' rfl]
+
+/-- replacing the bytes in the hole leaves everything else, in particular the (now stale) ancestor
+size fields -/
+theorem splice_mixed (frames : List Frame) (h : Hole) (n : Nat) (X X' : Bytes) (hok : FramesOk frames h n) :
+    ∀ (P S : Bytes), splice (P ++ mixed frames h n X ++ S) (holeOffset P.length frames h) X.length X' =
+      P ++ mixed frames h n X' ++ S := by
+  induction frames with
+  | nil =>
+    intro P S
+    obtain ⟨h1, h2⟩ := hok
+    simp only [mixed, holeOffset]
+    have := splice_mid (P ++ renderList h.pre) X (renderList h.post ++ S) X'
+    simp only [List.length_append, length_renderList _ h1, List.append_assoc] at this ⊢
+    exact this
+  | cons fr r ih =>
+    intro P S
+    obtain ⟨hn, h1, h2, _, hr⟩ := hok
+    simp only [mixed, holeOffset]
+    have := ih hr (P ++ renderList fr.pre ++ header fr.name fr.wide (hdrLen fr.wide + fr.skip.length + lenIn r h n) ++ fr.skip)
+      (renderList fr.post ++ S)
+    simp only [List.length_append, length_renderList _ h1, length_header _ _ _ hn, List.append_assoc] at this ⊢
+    rw [show P.length + (sizeList fr.pre + (hdrLen fr.wide + fr.skip.length)) =
+      P.length + sizeList fr.pre + hdrLen fr.wide + fr.skip.length by omega] at this
+    exact this
+
+theorem readAt_mid (A M Z : Bytes) : readAt (A ++ M ++ Z) A.length M.length = M := by
+  unfold readAt
+  rw [List.append_assoc, List.drop_left' rfl, List.take_left' rfl]
+
+theorem packBE_ok (w : Nat) (v : Nat) (delta : Int) (v' : Nat) (e : PyErr) (hd : (v' : Int) = v + delta)
+    (hfit : v' < 256 ^ w) : packBE w ((v : Int) + delta) e = .ok (toBE w v') := by
+  unfold packBE
+  rw [← hd]
+  have : ¬ ((v' : Int) < 0 ∨ (v' : Int) ≥ ((256 ^ w : Nat) : Int)) := by omega
+  simp only [this, ↓reduceIte, Int.toNat_natCast]
+
+/-- one round of `__update_parents` on a size field that holds `s`: afterwards it holds `s + delta` -/
+theorem patchSize_header (A B name : Bytes) (wide : Bool) (s s' : Nat) (delta : Int) (hn : name.length = 4)
+    (hs8 : 8 ≤ s) (hfit : s < (if wide then 2 ^ 64 else 2 ^ 32)) (hfit' : s' < (if wide then 2 ^ 64 else 2 ^ 32))
+    (hd : (s' : Int) = s + delta) :
+    patchSize (A ++ header name wide s ++ B) A.length delta = .ok (A ++ header name wide s' ++ B) := by
+  cases wide with
+  | false =>
+    simp only [Bool.false_eq_true, ↓reduceIte] at hfit hfit'
+    simp only [header, Bool.false_eq_true, ↓reduceIte]
+    have hr : readAt (A ++ (toBE 4 s ++ name) ++ B) A.length 4 = toBE 4 s := by
+      have := readAt_mid A (toBE 4 s) (name ++ B)
+      simpa [List.append_assoc] using this
+    have hof : ofBE (toBE 4 s) = s := ofBE_toBE 4 s (by simpa using hfit)
+    unfold patchSize
+    simp only [hr, length_toBE, Nat.lt_irrefl, ↓reduceIte, hof]
+    have h1 : ¬ s = 1 := by omega
+    simp only [h1, ↓reduceIte, packBE_ok 4 s delta s' .struct_ hd (by simpa using hfit')]
+    have := writeAt_mid A (toBE 4 s) (name ++ B) (toBE 4 s') (by simp)
+    simp only [List.append_assoc] at this ⊢
+    rw [this]
+  | true =>
+    simp only [↓reduceIte] at hfit hfit'
+    simp only [header, ↓reduceIte]
+    have h41 : toBE 4 1 = [0, 0, 0, 1] := by decide
+    have hr : readAt (A ++ (toBE 4 1 ++ name ++ toBE 8 s) ++ B) A.length 4 = toBE 4 1 := by
+      have := readAt_mid A (toBE 4 1) (name ++ toBE 8 s ++ B)
+      simpa [List.append_assoc] using this
+    have hr2 : readAt (A ++ (toBE 4 1 ++ name ++ toBE 8 s) ++ B) (A.length + 4) 12 = name ++ toBE 8 s := by
+      have := readAt_mid (A ++ toBE 4 1) (name ++ toBE 8 s) B
+      simpa [List.append_assoc, hn] using this
+    have hof1 : ofBE (toBE 4 1) = 1 := by decide
+    have hof : ofBE (toBE 8 s) = s := ofBE_toBE 8 s (by simpa using hfit)
+    unfold patchSize
+    simp only [hr, hr2, length_toBE, Nat.lt_irrefl, ↓reduceIte, hof1]
+    rw [List.drop_left' hn]
+    simp only [length_toBE, Nat.lt_irrefl, ↓reduceIte, hof, packBE_ok 8 s delta s' .struct_ hd (by simpa using hfit')]
+    have := writeAt_mid (A ++ toBE 4 1 ++ name) (toBE 8 s) B (toBE 8 s') (by simp)
+    simp only [List.append_assoc, List.length_append, length_toBE, hn] at this ⊢
+    rw [show A.length + (4 + 4) = A.length + 8 by omega] at this
+    rw [this]
+
+theorem lenIn_shift (frames : List Frame) (h : Hole) (n n' : Nat) (delta : Int) (hd : (n' : Int) = n + delta) :
+    (lenIn frames h n' : Int) = lenIn frames h n + delta := by
+  induction frames with
+  | nil => simp only [lenIn]; omega
+  | cons fr r ih => simp only [lenIn]; omega
+
+theorem le_lenIn (frames : List Frame) (h : Hole) (n : Nat) : 0 ≤ lenIn frames h n := Nat.zero_le _
+
+/-- `__update_parents` along the path turns the stale size fields (hole of `n` bytes) into the
+ones for a hole of `n' = n + delta` bytes -/
+theorem updateParents_mixed (frames : List Frame) (h : Hole) (n n' : Nat) (delta : Int) (X : Bytes)
+    (hd : (n' : Int) = n + delta) (hok : FramesOk frames h n) (hok' : FramesOk frames h n') :
+    ∀ (P S : Bytes), updateParents (P ++ mixed frames h n X ++ S) (frameOffsets P.length frames) delta =
+      .ok (P ++ mixed frames h n' X ++ S) := by
+  induction frames with
+  | nil => intro P S; simp [updateParents, frameOffsets, mixed]
+  | cons fr r ih =>
+    intro P S
+    obtain ⟨hn, h1, h2, hfit, hr⟩ := hok
+    obtain ⟨_, _, _, hfit', hr'⟩ := hok'
+    simp only [mixed, frameOffsets, updateParents]
+    have hsh := lenIn_shift r h n n' delta hd
+    have hp := patchSize_header (P ++ renderList fr.pre)
+      (fr.skip ++ mixed r h n X ++ renderList fr.post ++ S) fr.name fr.wide
+      (hdrLen fr.wide + fr.skip.length + lenIn r h n) (hdrLen fr.wide + fr.skip.length + lenIn r h n') delta hn
+      (by cases fr.wide <;> simp [hdrLen] <;> omega) hfit hfit' (by omega)
+    simp only [List.length_append, length_renderList _ h1, List.append_assoc] at hp ⊢
+    rw [hp]
+    simp only
+    have := ih hr hr' (P ++ renderList fr.pre ++ header fr.name fr.wide (hdrLen fr.wide + fr.skip.length + lenIn r h n') ++ fr.skip)
+      (renderList fr.post ++ S)
+    simp only [List.length_append, length_renderList _ h1, length_header _ _ _ hn, List.append_assoc] at this ⊢
+    rw [show P.length + (sizeList fr.pre + (hdrLen fr.wide + fr.skip.length)) =
+      P.length + sizeList fr.pre + hdrLen fr.wide + fr.skip.length by omega] at this
+    exact this
+
+/-- replacing the atoms `mid` in the hole by `mid'` on the BYTES (splice, then `__update_parents`
+with the path offsets and `delta`) gives exactly the rendering of the tree with `mid'` in the hole;
+`P`/`S` are arbitrary bytes around the atom list (e.g. a final size-0 `mdat`) -/
+theorem parent_sizes_within (frames : List Frame) (h : Hole) (mid mid' : List Atom) (P S : Bytes)
+    (hw : wfList (fill frames h mid)) (hw' : wfList (fill frames h mid')) :
+    updateParents
+        (splice (P ++ renderList (fill frames h mid) ++ S) (holeOffset P.length frames h)
+          (renderList mid).length (renderList mid'))
+        (frameOffsets P.length frames) ((sizeList mid' : Int) - sizeList mid) =
+      .ok (P ++ renderList (fill frames h mid') ++ S) := by
+  obtain ⟨hok, hm⟩ := framesOk_of_wf frames h mid hw
+  obtain ⟨hok', hm'⟩ := framesOk_of_wf frames h mid' hw'
+  rw [renderList_fill, renderList_fill, splice_mixed frames h _ _ _ hok P S]
+  exact updateParents_mixed frames h (sizeList mid) (sizeList mid') _ (renderList mid') (by omega) hok hok' P S
+
+theorem parent_sizes (frames : List Frame) (h : Hole) (mid mid' : List Atom)
+    (hw : wfList (fill frames h mid)) (hw' : wfList (fill frames h mid')) :
+    updateParents
+        (splice (renderList (fill frames h mid)) (holeOffset 0 frames h) (renderList mid).length (renderList mid'))
+        (frameOffsets 0 frames) ((sizeList mid' : Int) - sizeList mid) =
+      .ok (renderList (fill frames h mid')) := by
+  have := parent_sizes_within frames h mid mid' [] [] hw hw'
+  simpa using this
+
 end Mutagen.Mp4C
